@@ -5,7 +5,7 @@
 (* exist on which condition class.  Mirrors GeneralCallables/MapCallables  *)
 (* in valida/conditions.py and the function signatures in callables.py.    *)
 (***************************************************************************)
-EXTENDS Cond, Names
+EXTENDS Cond
 
 GeneralFns == {"equal_to", "not_equal_to", "less_than", "greater_than", "less_than_or_equal_to",
                "greater_than_or_equal_to", "in_", "not_in", "in_range", "not_in_range",
@@ -48,7 +48,7 @@ Store(fn, actuals, akw) ==
                      ELSE IF KwHas(akw, ps[j]) THEN KwGet(akw, ps[j]) ELSE Eps
        IN [ok |-> /\ Len(actuals) <= Len(ps)
                   /\ \A j \in 1..Len(ps) : given(j) \/ (fn = "equal_to_approx" /\ j = 2)
-                  /\ \A m \in 1..Len(akw) : \E j \in (Len(actuals) + 1)..Len(ps) : ps[j] = akw[m].name,
+                  /\ \A m \in 1..Len(akw) : \E j \in (Len(actuals) + 1)..Len(ps) : NC(ps[j]) = akw[m].nc,
            args |-> <<>>,
            kw |-> [j \in 1..Len(ps) |-> Kw(ps[j], NC(ps[j]), val(j))]]
 
@@ -63,16 +63,16 @@ NormFixed(fn, args, kw) ==
 FixedShapeOk(fn, args, kw) ==
   LET ps == Params(fn) IN
   /\ Len(args) <= Len(ps)
-  /\ \A i \in 1..Len(kw) : \E j \in (Len(args) + 1)..Len(ps) : ps[j] = kw[i].name
+  /\ \A i \in 1..Len(kw) : \E j \in (Len(args) + 1)..Len(ps) : NC(ps[j]) = kw[i].nc
   /\ \A j \in (Len(args) + 1)..Len(ps) : KwHas(kw, ps[j])
 
-SameKwSeq(a, b) == Len(a) = Len(b) /\ \A j \in 1..Len(a) : a[j].name = b[j].name /\ Same(a[j].v, b[j].v)
+SameKwSeq(a, b) == Len(a) = Len(b) /\ \A j \in 1..Len(a) : a[j].nc = b[j].nc /\ SameU(a[j].v, b[j].v)
 SameKwSet(a, b) == /\ Len(a) = Len(b)
-                   /\ \A j \in 1..Len(a) : \E m \in 1..Len(b) : a[j].name = b[m].name /\ Same(a[j].v, b[m].v)
+                   /\ \A j \in 1..Len(a) : \E m \in 1..Len(b) : a[j].nc = b[m].nc /\ SameU(a[j].v, b[m].v)
 
 \* stored form (pargs, pkw) of a projected leaf binds the same arguments as the normal form (sargs, skw)
 SameArgsFn(fn, pargs, pkw, sargs, skw) ==
   CASE SigKind(fn) = "fixed" -> FixedShapeOk(fn, pargs, pkw) /\ SameKwSeq(NormFixed(fn, pargs, pkw), skw)
     [] SigKind(fn) = "varkw" -> pargs = <<>> /\ SameKwSet(pkw, skw)
-    [] OTHER -> pkw = <<>> /\ SameSeq(pargs, sargs)
+    [] OTHER -> pkw = <<>> /\ Len(pargs) = Len(sargs) /\ \A j \in 1..Len(pargs) : SameU(pargs[j], sargs[j])
 =============================================================================
